@@ -2,6 +2,7 @@
 CONSTANTS
   Kind = "ger"
   Fixed = TRUE
+  FixedF11 = TRUE
   H = 2
   MaxBlocks = 4
   MaxEvents = 1
